@@ -253,6 +253,12 @@ func (m *BaseUndoLogManager) Undo(ctx context.Context, dbType types.DBType, xid 
 	if err != nil {
 		return err
 	}
+	defer func() {
+		// hand the pooled connection back; without this every branch rollback keeps one forever
+		if closeErr := conn.Close(); closeErr != nil {
+			log.Errorf("conn close fail, xid: %s, branchID:%s err:%v", xid, branchID, closeErr)
+		}
+	}()
 
 	tx, err := conn.BeginTx(ctx, &sql.TxOptions{})
 	if err != nil {
